@@ -118,6 +118,8 @@ def cases(tier, seed):
                 c["default_dtype"] = "float32"
             elif r3 < 0.3:
                 c["grad_mode"] = rnd.choice(["no_grad", "inference"])
+            elif r3 < 0.42 and not sd.get("max_cholesky_size") == 0:
+                c["xs_float32"] = True  # float32 test points handed to a float64 model (exactly representable; promoted by the library)
             if n == 1 or (n == 2 and ns == 5):
                 c["hostile"] = True
             i += 1
@@ -242,6 +244,7 @@ def _post_call(a, k, out, tok):
     X = model.train_inputs[0]
     xs = a[1]
     xs = xs.unsqueeze(-1) if xs.dim() == 1 else xs
+    xs = xs.to(X.dtype)  # (test points of a narrower dtype are exactly representable in the model's)
     y = model.train_targets
     mt = isinstance(out, gpytorch.distributions.MultitaskMultivariateNormal)
     batch = torch.broadcast_shapes(X.shape[:-2], xs.shape[:-2], out.batch_shape)
@@ -467,6 +470,8 @@ def _run_case(case, ctx):
     from vf import util
 
     model, lik, X, y, xs, test_noise = build(case)
+    if case.get("xs_float32"):
+        xs = xs.float()
     if case.get("default_dtype") == "float32":
         model = model.double()  # constructed while float32 was the default (constraint bounds, buffers), then converted
         lik = model.likelihood
